@@ -72,8 +72,12 @@ def has_compared(t):
     return any(getattr(f, 'code', 'p') != 'i' for v in t.variants for f in v.fields)
 
 
-def emit(t, modname, cfgid, sp=None, pre='', law_t=None, classes=()):
+def emit(t, modname, cfgid, sp=None, pre='', law_t=None, classes=(), xf=None):
     """module for type t (already attributed).  law_t: twin with lawful methods for the laws."""
+    if xf:
+        xf(t)
+        if law_t is not None:
+            xf(law_t)
     body = pre + render_type(t, sp) + any_fn(t) + oracle_fn(t)
     covers = ['oracle eq']
     if len(t.variants) > 1 or has_compared(t):
